@@ -408,11 +408,31 @@ def run_real(ctx, rng, idx, params):
     from vf.gen import gprog
 
     counters, schedset = {}, set()
-    if rng.random() < 0.4:
+    entries = ["main"]
+    r_ = rng.random()
+    if r_ < 0.25:
         body = rng.choice(CONST_TEMPLATES)
         text = gprog.Program.HEADER + "@guppy\ndef main() -> None:\n" + body
+    elif r_ < 0.5:
+        prog = gprog.generate(rng)
+        text = prog.text()
+        entries = [f.name for f in prog.g.funcs] + ["main"]
+    elif r_ < 0.7:
+        # linear fragment: borrowed qubit / struct parameters are the analysis's inout variables
+        from vf.gen import glinear
+
+        text, _fp, _fn = glinear.generate(rng, accept_only=(rng.random() < 0.5))
+    elif r_ < 0.85:
+        from vf.gen import ggeneric
+
+        text, _fp, entries = ggeneric.generate(rng)
     else:
-        text = gprog.generate(rng).text()
+        # definedness generator: CFGs with unassigned variables, dead code, constant conditions
+        from vf.props import c08
+
+        text = c08.program(c08.G(rng, const_conds=(rng.random() < 0.3)).block(0, False))
+    counters["real_corpus_" + ("const" if r_ < 0.25 else "gprog" if r_ < 0.5 else "glinear" if r_ < 0.7
+                               else "ggeneric" if r_ < 0.85 else "c08")] = 1
     all_viol = []
     fps = []
     orig = CFG.analyze
@@ -437,15 +457,18 @@ def run_real(ctx, rng, idx, params):
     CFG.analyze = analyze
     try:
         ld = ctx.load(text)
-        try:
-            ld.main.check()
-        except BaseException as e:
-            if not C.is_guppy_error(e):
-                counters["non_guppy_exception_during_check"] = 1
-                import os
-                if os.environ.get("VERIF_TRACE"):
-                    import traceback
-                    traceback.print_exc()
+        for en in entries:
+            if not hasattr(ld.module, en):
+                continue
+            try:
+                getattr(ld.module, en).check()
+            except BaseException as e:
+                if not C.is_guppy_error(e):
+                    counters["non_guppy_exception_during_check"] = 1
+                    import os
+                    if os.environ.get("VERIF_TRACE"):
+                        import traceback
+                        traceback.print_exc()
     finally:
         CFG.analyze = orig
     counters["pops"] = SCHED.pops
